@@ -1,6 +1,6 @@
 (* C16 -- Protocol versions match iff same name, same major, minor not newer.
    Statements only; every proof is [exact <lemma>]. *)
-From Coq Require Import List NArith Bool.
+From Coq Require Import String List NArith Bool.
 From MevVerif Require Import lib.Bytes model.Semver proofs.Semver_proofs.
 Import ListNotations.
 Open Scope N_scope.
@@ -15,17 +15,64 @@ Theorem C16_match : forall n hn M m p HM Hm Hp,
 Proof. exact match_rule. Qed.
 Print Assumptions C16_match.
 
-(* The same rule on the whole numeric domain: ANY three-segment identifier (the first segment is ignored by the
-   code: "junk/preconf/1.0.0" is judged like "/preconf/1.0.0") whose version and whose handler's version are read
-   as numbers - leading zeros included, "01.002.3" is 1.2.3 - is matched exactly when the name is equal, the major
-   is equal and the minor is not greater. *)
-Theorem C16_match_general : forall incoming pre n v name supported SM Sm Sp PM Pm Pp,
-  split slash incoming = [pre; n; v] ->
+(* The same rule on the whole numeric domain: ANY identifier of three segments, the first one empty ("/n/v"), whose
+   version and whose handler's version are read as numbers - leading zeros included, "01.002.3" is 1.2.3 - is
+   matched exactly when the name is equal, the major is equal and the minor is not greater. *)
+Theorem C16_match_general : forall incoming n v name supported SM Sm Sp PM Pm Pp,
+  split slash incoming = [[]; n; v] ->
   parse_version supported = VNum SM Sm Sp -> parse_version v = VNum PM Pm Pp ->
   match_id incoming name supported =
     if bytes_eqb n name && (SM =? PM) && (Pm <=? Sm) then Match else NoMatch.
 Proof. exact match_general. Qed.
 Print Assumptions C16_match_general.
+
+(* Anything in front of the first '/' - one byte is enough, valid UTF-8 or not - and nothing is matched. *)
+Theorem C16_prefix_never_matched : forall incoming c pre n v name supported,
+  split slash incoming = [c :: pre; n; v] -> match_id incoming name supported = NoMatch.
+Proof. exact match_prefix. Qed.
+Print Assumptions C16_prefix_never_matched.
+
+(* The function as it was before the repair 6f7f755 ([match_id_v1]) did not look at that segment:
+   "\xff/test/1.0.0" and "x/test/1.0.0" were matched by the handler test 1.0.0 (the first one then crashed the node:
+   the resource manager labels its metrics with the accepted identifier).  Now both are refused. *)
+Theorem C16_prefix_v1_refuted :
+  match_id_v1 (255 :: bos "/test/1.0.0") (bos "test") (bos "1.0.0") = Match /\
+  match_id_v1 (bos "x/test/1.0.0") (bos "test") (bos "1.0.0") = Match /\
+  match_id (255 :: bos "/test/1.0.0") (bos "test") (bos "1.0.0") = NoMatch /\
+  match_id (bos "x/test/1.0.0") (bos "test") (bos "1.0.0") = NoMatch.
+Proof. exact prefix_v1_refuted. Qed.
+Print Assumptions C16_prefix_v1_refuted.
+
+(* What an accepted identifier looks like.  Not refused outright (matched, or judged by the library's lenient
+   dialect): it is exactly "/" ++ name ++ "/" ++ v, with no further '/'. *)
+Theorem C16_accepted_shape : forall incoming name supported,
+  match_id incoming name supported <> NoMatch ->
+  exists v, incoming = slash :: name ++ slash :: v /\ ~ In slash v /\ ~ In slash name.
+Proof. exact accepted_shape. Qed.
+Print Assumptions C16_accepted_shape.
+
+(* Matched: it is "/" ++ name ++ "/" ++ a.b.c with three runs of decimal digits - after the handler's name nothing but
+   ASCII digits and two dots. *)
+Theorem C16_accepted_id_is_wellformed : forall incoming name supported,
+  match_id incoming name supported = Match ->
+  exists a b c M m p,
+    incoming = slash :: name ++ slash :: a ++ dot :: b ++ dot :: c /\
+    numeric a M /\ numeric b m /\ numeric c p /\ M < two64 /\ m < two64 /\ p < two64 /\
+    ascii (a ++ dot :: b ++ dot :: c).
+Proof. exact accepted_id_is_wellformed. Qed.
+Print Assumptions C16_accepted_id_is_wellformed.
+
+(* Hence a matched identifier is valid UTF-8 whenever the handler's name is: for EVERY notion [valid] of validity of
+   byte strings that is closed under concatenation and holds of all-ASCII strings (UTF-8 validity is one), valid
+   name -> valid identifier.  This is what rules out the crash of 6f7f755's message: an identifier that go-libp2p
+   records (stream.SetProtocol, metrics labels) after the matcher accepted it is never invalid UTF-8.  On the
+   lenient dialect (Unspec) the statement is C16_accepted_shape only; the driver's hostile-id-e2e class observes
+   that no such identifier is accepted with non-ASCII bytes. *)
+Theorem C16_accepted_id_valid : forall (valid : bytes -> Prop) incoming name supported,
+  (forall x y, valid x -> valid y -> valid (x ++ y)) -> (forall x, ascii x -> valid x) ->
+  valid name -> match_id incoming name supported = Match -> valid incoming.
+Proof. exact accepted_id_valid. Qed.
+Print Assumptions C16_accepted_id_valid.
 
 (* ... where "read as numbers M.m.p" means exactly: three non-empty runs of decimal digits separated by two dots,
    each with a value below 2^64 ([numeric a M]: a is non-empty, all digits, of decimal value M). *)
@@ -60,8 +107,8 @@ Print Assumptions C16_name.
 (* For arbitrary strings on both sides a match is produced only through the numeric rule. *)
 Theorem C16_sound : forall incoming name supported,
   match_id incoming name supported = Match ->
-  exists pre v SM Sm Sp PM Pm Pp,
-    split slash incoming = [pre; name; v] /\
+  exists v SM Sm Sp PM Pm Pp,
+    split slash incoming = [[]; name; v] /\
     parse_version supported = VNum SM Sm Sp /\ parse_version v = VNum PM Pm Pp /\
     SM = PM /\ Pm <= Sm.
 Proof. exact match_sound. Qed.
